@@ -1,11 +1,13 @@
 #!/usr/bin/env python3
-"""Write the prompts for a round of seeding sub-agents (DESIGN §9): one per
+"""(SEED_FOCUS=<text> in the environment adds a sentence telling the agents where in the code to look.)
+Write the prompts for a round of seeding sub-agents (DESIGN §9): one per
 property id given on the command line, each told the ideas already used for
 that property (from /verif/seeded/*/meta.json) and asked for a different one.
 usage: mkseedprompts.py <round-tag> <id>...   -> /tmp/seedout-<tag>/<id>.prompt
 The agents get a scratch worktree /tmp/seed-<tag>-<id> (created by the caller,
 contract and hook files removed) and nothing from /verif."""
 import json, sys, glob, os
+focus = os.environ.get('SEED_FOCUS', '')
 tag = sys.argv[1]; ids = sys.argv[2:]
 hints = {
  'C01': 'an unusual datum shape or kind, a particular operator x representation combination, a particular element position in a list, an interaction of `in` with maps/slices/strings, two cooperating code sites that each look fine alone',
@@ -41,7 +43,7 @@ A semantic property the library is supposed to satisfy:
 
 "{title}. {statement}"
 
-YOUR TASK: devise ONE realistic change to the library's NON-test source code (a plausible refactoring slip, optimisation, or bug) that BREAKS this property while (a) still compiling, and (b) still passing the complete existing test suite (`go test -count=1 ./...` in {wt}). The breakage must need something SPECIFIC to manifest — {hint} — not something ordinary use would expose at once. Keep the change small (a few lines). Prefer subtle over blunt: ideally the changed code still looks locally correct. Others already tried the following ideas, so pick a DIFFERENT one (different function or different mechanism):
+YOUR TASK: devise ONE realistic change to the library's NON-test source code (a plausible refactoring slip, optimisation, or bug) that BREAKS this property while (a) still compiling, and (b) still passing the complete existing test suite (`go test -count=1 ./...` in {wt}). The breakage must need something SPECIFIC to manifest — {hint} — not something ordinary use would expose at once. {focus}Keep the change small (a few lines). Prefer subtle over blunt: ideally the changed code still looks locally correct. Others already tried the following ideas, so pick a DIFFERENT one (different function or different mechanism):
 {used}
 
 Deliverables (write them to {out}/{id}/):
@@ -56,5 +58,5 @@ for l in open('/verif/properties.jsonl'):
     if id not in ids: continue
     os.makedirs('%s/%s' % (out, id), exist_ok=True)
     u = '\n'.join('  - ' + x for x in used.get(id, [])) or '  (none yet)'
-    open('%s/%s.prompt' % (out, id), 'w').write(P.format(id=id, wt='/tmp/seed-%s-%s' % (tag, id), out=out, title=id + ' — ' + d['title'], statement=d['statement'], hint=hints[id], used=u))
+    open('%s/%s.prompt' % (out, id), 'w').write(P.format(id=id, wt='/tmp/seed-%s-%s' % (tag, id), out=out, title=id + ' — ' + d['title'], statement=d['statement'], hint=hints[id], used=u, focus=(focus + ' ' if focus else '')))
 print('prompts in', out)
